@@ -19,13 +19,15 @@ let show = function
 let parse_op toks =
   let n i = n_of_int (int_of_string (List.nth toks i)) in
   match List.hd toks with
+  | "RS" -> SResize (n 1, n 2)
+  | _ -> SOp (match List.hd toks with
   | "M" -> Mark (n 1) | "U" -> Unmark (n 1) | "T" -> Test (n 1)
   | "MR" -> MarkRange (n 1, n 2) | "UR" -> UnmarkRange (n 1, n 2) | "TR" -> TestRange (n 1, n 2)
   | "FZ" -> FindZero (n 1, n 2) | "FS" -> FindSet (n 1, n 2)
   | "GR" -> GetRange (n 1, n 2)
   | "SR" -> SetRange (n 1, n 2, bits_of_string (if List.length toks > 3 then List.nth toks 3 else ""))
   | "CL" -> Clear | "PAD" -> SetPadding | "SNAP" -> Snapshot | "CMP" -> Compare
-  | s -> failwith ("bad op " ^ s)
+  | s -> failwith ("bad op " ^ s))
 
 let () =
   let which = Sys.argv.(1) in
